@@ -114,28 +114,35 @@ def _entries(ctx: Ctx, cls: ClassInfo, _depth: int = 0) -> tuple[set[str], Class
 
 
 def _entries_of(ctx: Ctx, cls: ClassInfo, value: ast.AST, depth: int) -> set[str]:
+    """The strings of a set expression, whatever its spelling: displays (with ``*base`` parts), ``set()`` /
+    ``frozenset(<iterable>)``, ``a | b``, ``a.union(b, ...)`` and ``<Base>._ATTR_NOT_TO_SERIALIZE``."""
     if isinstance(value, (ast.Set, ast.List, ast.Tuple)):
-        if not all(isinstance(e, ast.Constant) and isinstance(e.value, str) for e in value.elts):
-            raise AnalysisError(f"{cls.key}: _ATTR_NOT_TO_SERIALIZE has non-literal entries")
-        return {e.value for e in value.elts}
-    if isinstance(value, ast.Call) and dotted(value.func) == "set" and not value.args:
-        return set()
-    if isinstance(value, ast.Call) and isinstance(value.func, ast.Attribute) and value.func.attr == "union" and isinstance(value.func.value, ast.Attribute) and value.func.value.attr == "_ATTR_NOT_TO_SERIALIZE":
-        base_name = dotted(value.func.value.value)
-        base = next((b for b in ctx.index.mro(cls)[1:] if b.name == base_name), None)
-        if base is None or depth > 6:
-            raise AnalysisError(f"{cls.key}: base {base_name} of the exclusion list not found in the MRO")
-        inherited, _ = _entries(ctx, base, depth + 1)
-        own = set()
+        out: set[str] = set()
+        for e in value.elts:
+            if isinstance(e, ast.Constant) and isinstance(e.value, str):
+                out.add(e.value)
+            elif isinstance(e, ast.Starred):
+                out |= _entries_of(ctx, cls, e.value, depth)
+            else:
+                raise AnalysisError(f"{cls.key}: _ATTR_NOT_TO_SERIALIZE has non-literal entries")
+        return out
+    if isinstance(value, ast.Call) and dotted(value.func) in ("set", "frozenset") and not value.keywords:
+        if not value.args:
+            return set()
+        if len(value.args) == 1:
+            return _entries_of(ctx, cls, value.args[0], depth)
+    if isinstance(value, ast.Call) and isinstance(value.func, ast.Attribute) and value.func.attr == "union" and not value.keywords:
+        out = _entries_of(ctx, cls, value.func.value, depth)
         for a in value.args:
-            own |= _entries_of(ctx, cls, a, depth)
-        return inherited | own
+            out |= _entries_of(ctx, cls, a, depth)
+        return out
     if isinstance(value, ast.BinOp) and isinstance(value.op, ast.BitOr):
         return _entries_of(ctx, cls, value.left, depth) | _entries_of(ctx, cls, value.right, depth)
     if isinstance(value, ast.Attribute) and value.attr == "_ATTR_NOT_TO_SERIALIZE":
-        base = next((b for b in ctx.index.mro(cls)[1:] if b.name == dotted(value.value)), None)
-        if base is None:
-            raise AnalysisError(f"{cls.key}: base of the exclusion list not found")
+        base_name = dotted(value.value)
+        base = next((b for b in ctx.index.mro(cls)[1:] if b.name == base_name), None)
+        if base is None or depth > 6:
+            raise AnalysisError(f"{cls.key}: base {base_name} of the exclusion list not found in the MRO")
         return _entries(ctx, base, depth + 1)[0]
     raise AnalysisError(f"{cls.key}: _ATTR_NOT_TO_SERIALIZE has a shape the rule does not know: {norm_stmt(value)}")
 
@@ -320,11 +327,23 @@ def check_exclusions(ctx: Ctx) -> None:
         n += 1
         cfg = cfg_of(f)
         sc = [c for c in rules.super_calls(f, "__setstate__")]
-        ok = len(sc) == 1 and [dotted(a) for a in sc[0].args] == [[p for p in param_names(f) if p != "self"][0]]
+        state_param = [p for p in param_names(f) if p != "self"][0]
+        ok = len(sc) == 1 and [dotted(a) for a in [*sc[0].args, *[kw.value for kw in sc[0].keywords if kw.arg is not None]]] == [state_param] and all(kw.arg is not None for kw in sc[0].keywords)
         if ok:
             node = cfg.node_of(rules.enclosing_stmt(f, sc[0]))
-            first = [cfg.node_of(s) for s in stmts_of(f) if cfg.has(s) and not isinstance(s, ast.Expr) or (isinstance(s, ast.Expr) and not isinstance(s.value, ast.Constant))]
-            ok = all(cfg.dominates(node, x) for x in first)
+            excluded = _entries(ctx, cls)[0]
+            for st in stmts_of(f):
+                if not cfg.has(st) or (isinstance(st, ast.Expr) and isinstance(st.value, ast.Constant)):
+                    continue
+                if cfg.dominates(node, cfg.node_of(st)):
+                    continue
+                # before the base protocol only what it cannot see: a fresh value (read from neither the object nor
+                # the state) for an attribute that is excluded from the state, so that the loop of the base class
+                # neither skips a pickled value because of it nor overwrites it
+                tgt = st.targets[0] if isinstance(st, ast.Assign) and len(st.targets) == 1 else None
+                fresh = isinstance(tgt, ast.Attribute) and dotted(tgt.value) == "self" and mangle(cls.name, tgt.attr) in excluded and not ({n_.id for n_ in ast.walk(st.value) if isinstance(n_, ast.Name)} & {"self", state_param})
+                ok = ok and fresh
+            ok = ok and cfg.escape_path(cfg.entry, {node}) is None
         ctx.ob("20.1-super", cname(cls.module.relpath, cls.qualname, "__setstate__"), bool(ok), "an override of __setstate__ must first run the base protocol with the same state (hooks, counters by value, paths)", node=(sc or [f])[0], stmt="super().__setstate__(state) first")
     ctx.floor("20.1-super", 4)
     ctx.extra["effective_exclusions"] = n_eff
@@ -395,10 +414,11 @@ def _same_construction(ctx: Ctx, cls: ClassInfo, stored: str, con: str) -> None:
 def _self_assigned(f: ast.FunctionDef) -> set[str]:
     out = set()
     for s in stmts_of(f):
-        if isinstance(s, ast.Assign):
-            for t in s.targets:
-                if isinstance(t, ast.Attribute) and dotted(t.value) == "self":
-                    out.add(t.attr)
+        targets = s.targets if isinstance(s, ast.Assign) else [s.target] if isinstance(s, ast.AnnAssign) and s.value is not None else []
+        for t in targets:
+            for tt in t.elts if isinstance(t, (ast.Tuple, ast.List)) else [t]:
+                if isinstance(tt, ast.Attribute) and dotted(tt.value) == "self":
+                    out.add(tt.attr)
     return out
 
 
@@ -417,9 +437,12 @@ def _primitive_kind(ctx: Ctx, cls: ClassInfo, func: ast.FunctionDef, e: ast.AST,
     if not isinstance(e, ast.Call):
         return None
     fn = e.func
-    if isinstance(fn, ast.Name):
-        q = imports.get(fn.id, fn.id)
-        if fn.id == "cast" and len(e.args) == 2:
+    name = dotted(fn)
+    if name is not None and "(" not in name and "[" not in name and name.split(".")[0] != "self":
+        # RLock(), multiprocessing.RLock(), mp.RLock(), multiprocessing.synchronize.RLock(): resolved through the imports
+        head, _, rest = name.partition(".")
+        q = imports.get(head, head) + ("." + rest if rest else "")
+        if name in ("cast", "typing.cast") and len(e.args) == 2:
             return _primitive_kind(ctx, cls, func, e.args[1], depth)
         tail = q.rsplit(".", 1)[-1]
         if q.startswith(("multiprocessing", "threading")):
@@ -427,7 +450,8 @@ def _primitive_kind(ctx: Ctx, cls: ClassInfo, func: ast.FunctionDef, e: ast.AST,
                 return "lock"
             if tail in SYNCHRONIZED:
                 return "synchronized"
-        return None
+        if isinstance(fn, ast.Name):
+            return None
     if isinstance(fn, ast.Attribute):
         recv = fn.value
         if isinstance(recv, ast.Name) and recv.id != "self":
@@ -517,40 +541,135 @@ def check_primitives(ctx: Ctx) -> None:
     ctx.floor("20.2-hook-in-init", 5)
 
 
+def _literal_mapping(e: ast.AST) -> dict[str, ast.AST] | None:
+    """key -> value of a mapping written out entry by entry: ``{"k": v, ...}``, ``dict(k=v, ...)``, ``dict({...}, k=v)``."""
+    if isinstance(e, ast.Dict):
+        if all(isinstance(k, ast.Constant) and isinstance(k.value, str) for k in e.keys):
+            return {k.value: v for k, v in zip(e.keys, e.values)}
+        return None
+    if isinstance(e, ast.Call) and dotted(e.func) == "dict" and len(e.args) <= 1:
+        out = _literal_mapping(e.args[0]) if e.args else {}
+        if out is None or any(k.arg is None for k in e.keywords):
+            return None
+        out = dict(out)
+        out.update({k.arg: k.value for k in e.keywords})
+        return out
+    return None
+
+
+def _explicit_state(f: ast.FunctionDef) -> dict[str, ast.AST] | None:
+    """key -> value of a ``__getstate__`` that writes its state out entry by entry: returned directly, or built in a
+    local that is only completed by ``<local>["k"] = v`` statements.  None for any other construction."""
+    rets = [s for s in stmts_of(f) if isinstance(s, ast.Return) and s.value is not None]
+    if len(rets) != 1:
+        return None
+    v = rets[0].value
+    for n in walk_body(f):
+        # a display that is stored into or mutated in place is a local that the engine's inlining of new single-use
+        # locals has replaced by its definition: the returned display is then not the whole state
+        base = n.value if isinstance(n, ast.Subscript) and isinstance(n.ctx, (ast.Store, ast.Del)) else n.func.value if isinstance(n, ast.Call) and isinstance(n.func, ast.Attribute) and n.func.attr in _MUTATORS else None
+        if base is not None and _literal_mapping(base) is not None:
+            return None
+    if not isinstance(v, ast.Name):
+        return _literal_mapping(v)
+    defs = [s for s in stmts_of(f) if isinstance(s, (ast.Assign, ast.AnnAssign)) and s.value is not None and any(isinstance(t, ast.Name) and t.id == v.id for t in (s.targets if isinstance(s, ast.Assign) else [s.target]))]
+    out = _literal_mapping(defs[0].value) if len(defs) == 1 else None
+    if out is None:
+        return None
+    out = dict(out)
+    uses = sum(1 for n in walk_body(f) if isinstance(n, ast.Name) and n.id == v.id)
+    known = 2  # the definition and the return
+    for s in stmts_of(f):
+        if isinstance(s, ast.Assign) and len(s.targets) == 1 and isinstance(s.targets[0], ast.Subscript) and dotted(s.targets[0].value) == v.id and isinstance(s.targets[0].slice, ast.Constant) and isinstance(s.targets[0].slice.value, str) and v.id not in {n.id for n in ast.walk(s.value) if isinstance(n, ast.Name)}:
+            out[s.targets[0].slice.value] = s.value
+            known += 1
+    return out if uses == known else None  # any other use (update, pop, del, alias) is not understood
+
+
 def _getstate_omits(f: ast.FunctionDef, owner: ClassInfo, stored: str) -> tuple[bool, str]:
     rets = [s for s in stmts_of(f) if isinstance(s, ast.Return) and s.value is not None]
     if len(rets) != 1:
         return False, "has several returns"
     v = rets[0].value
-    if isinstance(v, ast.Dict):
-        raw = [x for x in v.values if isinstance(x, ast.Attribute) and dotted(x.value) == "self" and mangle(owner.name, x.attr) == stored]
+    explicit = _explicit_state(f)
+    if explicit is not None:
+        raw = [x for x in explicit.values() if isinstance(x, ast.Attribute) and dotted(x.value) == "self" and mangle(owner.name, x.attr) == stored]
         return (not raw, "builds its state explicitly" + (" but stores the attribute raw" if raw else " without it"))
-    if isinstance(v, ast.Name):
-        src = [s for s in stmts_of(f) if isinstance(s, ast.Assign) and any(isinstance(t, ast.Name) and t.id == v.id for t in s.targets)]
-        if len(src) == 1 and "__dict__" in norm_stmt(src[0].value):
-            deleted = set()
-            for s in stmts_of(f):
-                if isinstance(s, ast.Delete):
-                    for t in s.targets:
-                        if isinstance(t, ast.Subscript) and dotted(t.value) == v.id and isinstance(t.slice, ast.Constant):
-                            deleted.add(t.slice.value)
-                if isinstance(s, ast.Assign) and isinstance(s.targets[0], ast.Subscript) and dotted(s.targets[0].value) == v.id and isinstance(s.targets[0].slice, ast.Constant):
-                    deleted.add(s.targets[0].slice.value)  # replaced by another value
-            return (stored in deleted, f"copies __dict__ and {'removes' if stored in deleted else 'keeps'} {stored}")
+    edits = _state_edits(f)
+    if edits is not None:
+        _, src, deleted, popped, added = edits
+        if "__dict__" in norm_stmt(src.value) or "vars(self)" in norm_stmt(src.value):
+            # removed, or replaced by another value
+            gone = {_key_text(owner, k) for k in [*deleted, *popped, *added]}
+            return (stored in gone, f"copies __dict__ and {'removes' if stored in gone else 'keeps'} {stored}")
     return False, "builds its state in a way the rule does not know"
 
 
 # ---------------------------------------------------------------- 20.3
-def _state_edits(f: ast.FunctionDef):
-    """(state variable, source expression, deleted keys, popped keys, added keys) of a ``__getstate__``."""
-    rets = [s for s in stmts_of(f) if isinstance(s, ast.Return) and s.value is not None]
-    if len(rets) != 1 or not isinstance(rets[0].value, ast.Name):
+def _takes_state(st: ast.stmt, setstate: ast.FunctionDef) -> bool:
+    """``self.__dict__.update(<state>)`` / ``vars(self).update(<state>)`` / ``self.__dict__ |= <state>``."""
+    state_param = ([p for p in param_names(setstate) if p != "self"] or ["state"])[0]
+    if isinstance(st, ast.Expr) and isinstance(st.value, ast.Call) and isinstance(st.value.func, ast.Attribute) and st.value.func.attr == "update":
+        c = st.value
+        return norm_stmt(c.func.value) in _OWN_DICT and [dotted(a) for a in c.args] == [state_param] and not c.keywords
+    if isinstance(st, ast.AugAssign) and isinstance(st.op, ast.BitOr):
+        return norm_stmt(st.target) in _OWN_DICT and dotted(st.value) == state_param
+    return False
+
+
+def _reads_self_attr(x: ast.AST, attr: str) -> bool:
+    """``self.<attr>`` read, or ``getattr(self, "<attr>")``."""
+    if isinstance(x, ast.Attribute) and isinstance(x.ctx, ast.Load) and x.attr == attr and dotted(x.value) == "self":
+        return True
+    return isinstance(x, ast.Call) and dotted(x.func) == "getattr" and len(x.args) >= 2 and dotted(x.args[0]) == "self" and getattr(x.args[1], "value", None) == attr
+
+
+def _filtered_copy(e: ast.AST) -> list[ast.AST] | None:
+    """Keys left out by ``{k: v for k, v in self.__dict__.items() if k != "a" and k not in ("b", "c")}``; None when
+    ``e`` is not such a filtered copy of the instance dictionary."""
+    if not (isinstance(e, ast.DictComp) and len(e.generators) == 1):
         return None
+    gen = e.generators[0]
+    it = gen.iter
+    if not (isinstance(it, ast.Call) and isinstance(it.func, ast.Attribute) and it.func.attr == "items" and norm_stmt(it.func.value) in ("self.__dict__", "vars(self)") and not it.args):
+        return None
+    if not (isinstance(gen.target, ast.Tuple) and len(gen.target.elts) == 2 and all(isinstance(x, ast.Name) for x in gen.target.elts)):
+        return None
+    k, v = (x.id for x in gen.target.elts)
+    if dotted(e.key) != k or dotted(e.value) != v:
+        return None
+    out: list[ast.AST] = []
+    from gv.props.shared import conj_literals
+
+    for cond in gen.ifs:
+        for pol, lit in conj_literals(cond):
+            if not (isinstance(lit, ast.Compare) and len(lit.ops) == 1 and dotted(lit.left) == k):
+                return None
+            op, right = lit.ops[0], lit.comparators[0]
+            if (pol and isinstance(op, ast.NotEq)) or (not pol and isinstance(op, ast.Eq)):
+                out.append(right)
+            elif ((pol and isinstance(op, ast.NotIn)) or (not pol and isinstance(op, ast.In))) and isinstance(right, (ast.Tuple, ast.List, ast.Set)):
+                out += list(right.elts)
+            else:
+                return None
+    return out
+
+
+def _state_edits(f: ast.FunctionDef):
+    """(state variable, source statement, deleted keys, popped keys, added keys) of a ``__getstate__`` that copies the
+    instance dictionary and edits the copy; a filtering comprehension counts as copy + deletions (the variable is None
+    when the comprehension is returned directly)."""
+    rets = [s for s in stmts_of(f) if isinstance(s, ast.Return) and s.value is not None]
+    if len(rets) != 1:
+        return None
+    if not isinstance(rets[0].value, ast.Name):
+        left_out = _filtered_copy(rets[0].value)
+        return None if left_out is None else (None, rets[0], left_out, [], [])
     var = rets[0].value.id
     src = [s for s in stmts_of(f) if isinstance(s, ast.Assign) and any(isinstance(t, ast.Name) and t.id == var for t in s.targets)]
     if len(src) != 1:
         return None
-    deleted, popped, added = [], [], []
+    deleted, popped, added = list(_filtered_copy(src[0].value) or []), [], []
     for n in walk_body(f):
         if isinstance(n, ast.Delete):
             for t in n.targets:
@@ -623,13 +742,15 @@ def check_pairs(ctx: Ctx) -> None:
     con = cname(JSG, "JSONGrammar", "__getstate__")
     cfg = cfg_of(g)
     copy_stmt = _state_edits(g)[1]
-    refresh = [st for st in stmts_of(g) if isinstance(st, ast.Expr) and norm_stmt(st.value) == "self.schema"]
-    ok = len(refresh) == 1 and cfg.dominates(cfg.node_of(refresh[0]), cfg.node_of(copy_stmt))
+    # any statement that evaluates the property (``self.schema``, ``_ = self.schema``, ``getattr(self, "schema")``)
+    refresh = [st for st in stmts_of(g) if cfg.has(st) and not isinstance(st, (ast.If, ast.For, ast.While, ast.With, ast.Try)) and any(_reads_self_attr(x, "schema") for x in ast.walk(st))]
+    refresh = [st for st in refresh if cfg.node_of(st) != cfg.node_of(copy_stmt) and cfg.dominates(cfg.node_of(st), cfg.node_of(copy_stmt))] or refresh
+    ok = bool(refresh) and cfg.node_of(refresh[0]) != cfg.node_of(copy_stmt) and cfg.dominates(cfg.node_of(refresh[0]), cfg.node_of(copy_stmt))
     ctx.ob("20.3-json", con, ok, "the schema must be refreshed (self.schema) before the state is copied: the pickled schema is what rebuilds the grammar", node=(refresh or [g])[0], stmt="schema refreshed before the state is copied")
     cons = cname(JSG, "JSONGrammar", "__setstate__")
     cfg = cfg_of(s)
     clear = [st for st in stmts_of(s) if isinstance(st, ast.Expr) and norm_stmt(st.value) in ("self.clear()", "self._clear()")]
-    upd = [st for st in stmts_of(s) if isinstance(st, ast.Expr) and norm_stmt(st.value) == "self.__dict__.update(state)"]
+    upd = [st for st in stmts_of(s) if _takes_state(st, s)]
     add = [c for c in walk_body(s) if isinstance(c, ast.Call) and norm_stmt(c.func) == "self.__schema_builder.add_schema"]
     ok = len(clear) == 1 and len(upd) == 1 and len(add) == 1
     if ok:
@@ -650,7 +771,7 @@ def check_pairs(ctx: Ctx) -> None:
     cp = _state_edits(g)
     ok = len(rb) == 1 and cp is not None and cfg.dominates(cfg.node_of(rb[0]), cfg.node_of(cp[1]))
     ctx.ob("20.3-pydantic", cname(PYG, "PydanticGrammar", "__getstate__"), ok, "the model must be rebuilt before its fields are pickled", node=(rb or [g])[0], stmt="model rebuilt before the state is copied")
-    ok = any(isinstance(st, ast.Expr) and norm_stmt(st.value) == "self.__dict__.update(state)" for st in stmts_of(s)) and any(isinstance(c, ast.Call) and norm_stmt(c.func) == "self._clear" for c in walk_body(s)) and any(isinstance(st, ast.Assign) and norm_stmt(st.targets[0]) == "self.__model.model_fields" for st in stmts_of(s))
+    ok = any(_takes_state(st, s) for st in stmts_of(s)) and any(isinstance(c, ast.Call) and norm_stmt(c.func) == "self._clear" for c in walk_body(s)) and any(isinstance(st, ast.Assign) and norm_stmt(st.targets[0]) == "self.__model.model_fields" for st in stmts_of(s))
     ctx.ob("20.3-pydantic", cname(PYG, "PydanticGrammar", "__setstate__"), ok, "a model pickled as its fields must be re-created from them", node=s, stmt="model re-created from the pickled fields")
 
     # HDF5Cache re-invokes __init__
@@ -658,8 +779,9 @@ def check_pairs(ctx: Ctx) -> None:
     g, s, init = cls.methods["__getstate__"], cls.methods["__setstate__"], cls.methods["__init__"]
     con = cname(HDF, "HDF5Cache", "__getstate__")
     rets = [st for st in stmts_of(g) if isinstance(st, ast.Return)]
-    ok = len(rets) == 1 and isinstance(rets[0].value, ast.Dict) and all(isinstance(k, ast.Constant) for k in rets[0].value.keys)
-    keys = {k.value: v for k, v in zip(rets[0].value.keys, rets[0].value.values)} if ok else {}
+    keys = _explicit_state(g)
+    ok = keys is not None
+    keys = keys or {}
     params = [p for p in param_names(init) if p != "self"]
     n_def = len(init.args.defaults)
     required = params[: len(params) - n_def] if n_def else params
@@ -683,41 +805,256 @@ def check_pairs(ctx: Ctx) -> None:
     ctx.ob("20.3-hdf5", con, not raw, "the file singleton (a lock and an open-file manager) must not travel in the state", node=(raw or [g])[0], stmt="the file singleton is not pickled")
     cons = cname(HDF, "HDF5Cache", "__setstate__")
     calls = [c for c in walk_body(s) if isinstance(c, ast.Call) and last_attr(c) == "__init__"]
-    ok = len(calls) == 1 and norm_stmt(calls[0].func) in ("self.__class__.__init__", "HDF5Cache.__init__", "type(self).__init__") and dotted(calls[0].args[0]) == "self" and any(k.arg is None and dotted(k.value) == "state" for k in calls[0].keywords)
+    state_param = ([p for p in param_names(s) if p != "self"] or ["state"])[0]
+    ok = len(calls) == 1 and [(k.arg, dotted(k.value)) for k in calls[0].keywords] == [(None, state_param)]
+    if ok:
+        # the unbound spelling takes the instance, the bound one (self.__init__(**state)) nothing else
+        unbound = norm_stmt(calls[0].func) in ("self.__class__.__init__", "HDF5Cache.__init__", "type(self).__init__")
+        ok = [dotted(a) for a in calls[0].args] == (["self"] if unbound else []) and (unbound or norm_stmt(calls[0].func) == "self.__init__")
     ctx.ob("20.3-hdf5", cons, ok, "the cache re-attaches to its file by re-running __init__ with the pickled parameters", node=(calls or [s])[0], stmt="__init__(self, **state)")
 
     # the base protocol
     g, s = ser.methods["__getstate__"], ser.methods["__setstate__"]
     con = cname(SER, "Serializable", "__setstate__")
     cfg = cfg_of(s)
-    b = [st for st in stmts_of(s) if isinstance(st, ast.Expr) and norm_stmt(st.value) == f"self.{BEFORE}()"]
-    a = [st for st in stmts_of(s) if isinstance(st, ast.Expr) and norm_stmt(st.value) == f"self.{AFTER}()"]
+    b = [rules.enclosing_stmt(s, c) for c in rules.self_calls(s, BEFORE)]
+    a = [rules.enclosing_stmt(s, c) for c in rules.self_calls(s, AFTER)]
     loops = [st for st in stmts_of(s) if isinstance(st, ast.For)]
     ok = len(b) == 1 and len(a) == 1 and len(loops) == 1
     if ok:
         ok = cfg.dominates(cfg.node_of(b[0]), cfg.node_of(loops[0])) and cfg.path(cfg.node_of(a[0]), cfg.node_of(loops[0])) is None and cfg.escape_path(cfg.entry, {cfg.node_of(a[0])}) is None
     ctx.ob("20.3-base", con, bool(ok), "the before-hook runs before any attribute is restored and the after-hook after all of them, on every path", node=(b or [s])[0], stmt="before-hook, attributes, after-hook")
-    ok = False
-    if loops:
-        ifs = [n_ for n_ in ast.walk(loops[0]) if isinstance(n_, ast.If)]
-        top = next((i for i in ifs if norm_stmt(i.test).startswith("attribute_name not in self.__dict__")), None)
-        if top is not None and top.orelse and isinstance(top.orelse[0], ast.If):
-            e = top.orelse[0]
-            sets_value = any(isinstance(st, ast.Assign) and norm_stmt(st.targets[0]) == "self.__dict__[attribute_name].value" and dotted(st.value) == "attribute_value" for st in e.body)
-            ok = "Synchronized" in norm_stmt(e.test) and sets_value and any(isinstance(st, ast.Assign) and norm_stmt(st.targets[0]) == "self.__dict__[attribute_name]" and dotted(st.value) == "attribute_value" for st in top.body)
+    ok = bool(loops) and _restores_by_value(s, loops[0])
     ctx.ob("20.3-base", con, ok, "a missing attribute takes the pickled value; an existing Synchronized attribute (created by the before-hook) takes it through .value", node=(loops or [s])[0], stmt="missing attribute := value; Synchronized.value := value")
     con = cname(SER, "Serializable", "__getstate__")
     loops = [st for st in stmts_of(g) if isinstance(st, ast.For)]
-    ok = len(loops) == 1 and norm_stmt(loops[0].iter) in ("self.__dict__.keys() - self._ATTR_NOT_TO_SERIALIZE", "self.__dict__.keys() - set(self._ATTR_NOT_TO_SERIALIZE)")
+    ok = len(loops) == 1 and _stores_all_but_excluded(g, loops[0])
     ctx.ob("20.3-base", con, ok, "the state holds every attribute except those of _ATTR_NOT_TO_SERIALIZE", node=(loops or [g])[0], stmt="state = __dict__ minus the exclusion list")
-    ok = False
-    if loops:
-        for i in [n_ for n_ in ast.walk(loops[0]) if isinstance(n_, ast.If)]:
-            if "Synchronized" in norm_stmt(i.test) and any(isinstance(st, ast.Assign) and dotted(st.targets[0]) == "attribute_value" and norm_stmt(st.value) == "attribute_value.value" for st in i.body):
-                ok = True
-        stores = [st for st in loops[0].body if isinstance(st, ast.Assign) and norm_stmt(st.targets[0]) == "state[attribute_name]" and dotted(st.value) == "attribute_value"]
-        ok = ok and len(stores) == 1
+    ok = len(loops) == 1 and _stores_counters_by_value(g, loops[0])
     ctx.ob("20.3-base", con, ok, "a Synchronized attribute is stored by value (counters and statistics carry over as numbers)", node=(loops or [g])[0], stmt="Synchronized stored as .value")
+
+
+_OWN_DICT = ("self.__dict__", "vars(self)")
+
+
+_EXCLUSION_LIST = {"self._ATTR_NOT_TO_SERIALIZE", "set(self._ATTR_NOT_TO_SERIALIZE)", "type(self)._ATTR_NOT_TO_SERIALIZE", "self.__class__._ATTR_NOT_TO_SERIALIZE"}
+
+
+def _iter_parts(it: ast.AST) -> tuple[ast.AST | None, bool]:
+    """(the mapping view iterated over, whether the exclusion list has been taken out of it): ``m.keys() - excl``,
+    ``set(m) - excl``, ``[n for n in m if n not in excl]``, ``sorted(...)`` of these.  (None, False) when the iterable
+    is filtered in another way."""
+    reduced = False
+    while True:
+        if isinstance(it, ast.BinOp) and isinstance(it.op, ast.Sub):
+            if norm_stmt(it.right) not in _EXCLUSION_LIST:
+                return None, False
+            reduced, it = True, it.left
+        elif isinstance(it, ast.Call) and dotted(it.func) in ("set", "list", "tuple", "sorted", "frozenset") and len(it.args) == 1 and not it.keywords:
+            it = it.args[0]
+        elif isinstance(it, (ast.ListComp, ast.SetComp, ast.GeneratorExp)) and len(it.generators) == 1 and isinstance(it.generators[0].target, ast.Name) and dotted(it.elt) == it.generators[0].target.id:
+            gen = it.generators[0]
+            for cond in gen.ifs:
+                txt = norm_stmt(cond)
+                if txt not in {f"{gen.target.id} not in {x}" for x in _EXCLUSION_LIST}:
+                    return None, False
+                reduced = True
+            it = gen.iter
+        else:
+            return it, reduced
+
+
+def _loop_vars(loop: ast.For, mappings: tuple[str, ...]) -> tuple[str, str | None, str] | None:
+    """(key variable, value variable or None, mapping text) of ``for k in m`` / ``for k in m.keys()`` /
+    ``for k, v in m.items()`` where ``m`` is one of ``mappings`` (the iterable may be reduced by ``- <set>``)."""
+    it = _iter_parts(loop.iter)[0]
+    if it is None:
+        return None
+    meth = None
+    if isinstance(it, ast.Call) and isinstance(it.func, ast.Attribute) and it.func.attr in ("keys", "items") and not it.args:
+        meth, it = it.func.attr, it.func.value
+    m = norm_stmt(it)
+    if m not in mappings:
+        return None
+    if meth == "items":
+        if isinstance(loop.target, ast.Tuple) and len(loop.target.elts) == 2 and all(isinstance(x, ast.Name) for x in loop.target.elts):
+            return loop.target.elts[0].id, loop.target.elts[1].id, m
+        return None
+    return (loop.target.id, None, m) if isinstance(loop.target, ast.Name) else None
+
+
+def _conditions(func: ast.AST, cfg, node: int) -> list[tuple[bool, list[str], ast.AST]]:
+    """(polarity, unfolded texts, literal) of the plain conditions that hold whenever ``node`` runs."""
+    from gv.props.shared import branch_conditions
+    from gv.props.shared import conj_literals
+    from gv.props.shared import unfolded
+
+    out = []
+    for t, v in branch_conditions(cfg, node):
+        test = getattr(cfg.ast[t], "test", None)
+        if test is None:
+            continue
+        lits = conj_literals(test)
+        if not v and len(lits) != 1:
+            continue
+        for pol, e in lits:
+            out.append((pol if v else not pol, [norm_stmt(x) for x in unfolded(func, e) or [e]], e))
+    return out
+
+
+def _alternatives(func: ast.AST, e: ast.AST) -> set[str]:
+    """Texts ``e`` may stand for: locals unfolded, conditional expressions split into their two arms."""
+    from gv.props.shared import unfolded
+
+    out: set[str] = set()
+
+    def split(x: ast.AST) -> None:
+        if isinstance(x, ast.IfExp):
+            split(x.body)
+            split(x.orelse)
+        else:
+            out.add(norm_stmt(x))
+
+    for a in unfolded(func, e) or [e]:
+        split(a)
+    return out
+
+
+def _holds(conds, texts: set[str], value: bool) -> bool:
+    return any(pol == value and alts and set(alts) <= texts for pol, alts, _ in conds)
+
+
+def _is_synchronized_test(func: ast.AST, e: ast.AST, subjects: set[str]) -> bool:
+    """``isinstance(<one of subjects, possibly through a local>, Synchronized)``."""
+    from gv.props.shared import unfolded
+
+    if not (isinstance(e, ast.Call) and dotted(e.func) == "isinstance" and len(e.args) == 2 and (dotted(e.args[1]) or "").split(".")[-1] == "Synchronized"):
+        return False
+    alts = [norm_stmt(x) for x in unfolded(func, e.args[0]) or [e.args[0]]]
+    return bool(alts) and set(alts) <= subjects
+
+
+def _restores_by_value(func: ast.FunctionDef, loop: ast.For) -> bool:
+    """The loop of ``Serializable.__setstate__``: for every (name, value) of the state, the value is bound to the name
+    only when the object has no such attribute yet, and an existing ``Synchronized`` attribute receives it through
+    ``.value`` -- whatever the order of the two tests and the locals used."""
+    from gv.props.shared import unfolded
+
+    state_param = ([p for p in param_names(func) if p != "self"] or ["state"])[0]
+    lv = _loop_vars(loop, (state_param,))
+    if lv is None:
+        return False
+    k, v, _ = lv
+    values = {v} if v else set()
+    values |= {f"{state_param}[{k}]"}
+    values |= {f"Path({x})" for x in set(values)}
+    current = {f"{d}[{k}]" for d in _OWN_DICT} | {f"{d}.get({k})" for d in _OWN_DICT} | {f"{d}.get({k}, None)" for d in _OWN_DICT}
+    missing_true = {f"{k} not in {d}" for d in _OWN_DICT}
+    missing_false = {f"{k} in {d}" for d in _OWN_DICT}
+    cfg = cfg_of(func)
+
+    def texts(e):
+        return _alternatives(func, e)
+
+    raw, by_value = [], []
+    for st in [x for x in ast.walk(loop) if isinstance(x, ast.stmt) and x is not loop]:
+        if not cfg.has(st):
+            continue
+        tgt = st.targets[0] if isinstance(st, ast.Assign) and len(st.targets) == 1 else None
+        is_raw = isinstance(tgt, ast.Subscript) and norm_stmt(tgt.value) in _OWN_DICT and dotted(tgt.slice) == k
+        val = st.value if tgt is not None else None
+        if isinstance(st, ast.Expr) and isinstance(st.value, ast.Call) and dotted(st.value.func) == "setattr" and len(st.value.args) == 3 and dotted(st.value.args[0]) == "self" and dotted(st.value.args[1]) == k:
+            is_raw, val = True, st.value.args[2]
+        conds = _conditions(func, cfg, cfg.node_of(st))
+        if is_raw:
+            is_missing = _holds(conds, missing_true, True) or _holds(conds, missing_false, False)
+            raw.append(is_missing and texts(val) <= values)
+        elif isinstance(tgt, ast.Attribute) and tgt.attr == "value" and texts(tgt.value) <= current:
+            guarded = any(pol and _is_synchronized_test(func, e, current) for pol, _, e in conds)
+            by_value.append(guarded and texts(val) <= values - {x for x in values if x.startswith("Path(")})
+    return bool(raw) and all(raw) and bool(by_value) and all(by_value)
+
+
+def _stores_all_but_excluded(func: ast.FunctionDef, loop: ast.For) -> bool:
+    """The loop of ``Serializable.__getstate__`` visits the attributes of the object and stores each of them unless it
+    is in ``_ATTR_NOT_TO_SERIALIZE``: the list reduces the iterable (``keys() - list``) or guards the store."""
+    lv = _loop_vars(loop, _OWN_DICT)
+    if lv is None:
+        return False
+    k = lv[0]
+    excl = _EXCLUSION_LIST
+    cfg = cfg_of(func)
+    stores = [st for st in ast.walk(loop) if isinstance(st, ast.Assign) and len(st.targets) == 1 and isinstance(st.targets[0], ast.Subscript) and dotted(st.targets[0].slice) == k and isinstance(st.targets[0].value, ast.Name)]
+    if not stores or len({st.targets[0].value.id for st in stores}) != 1:
+        return False
+    reduced = _iter_parts(loop.iter)[1]
+    tests = {f"{k} in {x}" for x in excl} | {f"{k} not in {x}" for x in excl}
+    for st in stores:
+        conds = _conditions(func, cfg, cfg.node_of(st))
+        guarded = _holds(conds, {f"{k} in {x}" for x in excl}, False) or _holds(conds, {f"{k} not in {x}" for x in excl}, True)
+        # no other condition on the NAME may skip the store
+        others = [e for _, alts, e in conds if k in {n_.id for n_ in ast.walk(e) if isinstance(n_, ast.Name)} and not set(alts) <= tests]
+        if not (reduced or guarded) or others:
+            return False
+    # conditions on the value (Synchronized, Path) choose among the stores; some store runs for every kept name
+    nodes = {cfg.node_of(st) for st in stores}
+    body_entry = cfg.branch.get((cfg.node_of(loop), True))
+    if body_entry is None:
+        return False
+    p = cfg.path(body_entry, cfg.node_of(loop), avoid=nodes)
+    if p is None:
+        return True
+    # the only way round the stores is the guard of the exclusion list
+    guards = [t for (t, v), b in cfg.branch.items() if any(sub is cfg.ast[t] for sub in ast.walk(loop)) and cfg.ast[t] is not loop and set(_test_texts(func, cfg.ast[t])) <= tests and _test_texts(func, cfg.ast[t])]
+    excluded_branches = set()
+    for t in guards:
+        txt = _test_texts(func, cfg.ast[t])[0]
+        excluded_branches.add(cfg.branch[t, " not in " not in txt])
+    return cfg.path(body_entry, cfg.node_of(loop), avoid=nodes | excluded_branches) is None
+
+
+def _test_texts(func: ast.AST, node: ast.AST) -> list[str]:
+    from gv.props.shared import unfolded
+
+    test = getattr(node, "test", None)
+    if test is None:
+        return []
+    return [norm_stmt(x) for x in unfolded(func, test) or [test]]
+
+
+def _stores_counters_by_value(func: ast.FunctionDef, loop: ast.For) -> bool:
+    """What ``Serializable.__getstate__`` stores for a ``Synchronized`` attribute is its ``.value``."""
+    from gv.props.shared import unfolded
+
+    lv = _loop_vars(loop, _OWN_DICT)
+    if lv is None:
+        return False
+    k, v, _ = lv
+    current = {f"{d}[{k}]" for d in _OWN_DICT} | {f"getattr(self, {k})"} | ({v} if v else set())
+    stores = [st for st in ast.walk(loop) if isinstance(st, ast.Assign) and len(st.targets) == 1 and isinstance(st.targets[0], ast.Subscript) and dotted(st.targets[0].slice) == k and isinstance(st.targets[0].value, ast.Name)]
+    if not stores:
+        return False
+    tests = []
+    for n_ in ast.walk(loop):
+        test = n_.test if isinstance(n_, (ast.If, ast.IfExp)) else None
+        if test is not None and _is_synchronized_test(func, test, current) and norm_stmt(test) not in [norm_stmt(t) for t in tests]:
+            tests.append(test)
+    if len(tests) != 1:
+        return False
+    by_value = {f"{c}.value" for c in current}
+    n_taken = n_other = 0
+    for st in stores:
+        taken = unfolded(func, st, facts={norm_stmt(tests[0]): True}, get=lambda x: x.value)
+        other = unfolded(func, st, facts={norm_stmt(tests[0]): False}, get=lambda x: x.value)
+        if taken:  # the store runs for a Synchronized attribute: it stores the number
+            n_taken += 1
+            if not {norm_stmt(x) for x in taken} <= by_value:
+                return False
+        if other:  # and a plain attribute is not stored through .value
+            n_other += 1
+            if any(norm_stmt(x).endswith(".value") for x in other):
+                return False
+    return n_taken > 0 and n_other > 0
 
 
 # ---------------------------------------------------------------- 20.4 / 20.5 / 20.6
@@ -760,24 +1097,66 @@ def check_getstate_purity(ctx: Ctx) -> None:
     ctx.floor("20.5-copy", 6)
 
 
+def _open_mode(call: ast.Call) -> tuple[ast.AST | None, bool] | None:
+    """(mode argument, is the builtin) of an ``open`` call: ``<path>.open(mode)`` or ``open(<path>, mode)``."""
+    from gv.astutil import arg_or_kw
+
+    if isinstance(call.func, ast.Attribute) and call.func.attr == "open" and dotted(call.func.value) not in ("io", "os", "codecs"):
+        return arg_or_kw(call, 0, "mode"), False
+    if dotted(call.func) in ("open", "io.open"):
+        return arg_or_kw(call, 1, "mode"), True
+    return None
+
+
 def check_pickle_helpers(ctx: Ctx) -> None:
+    from gv.astutil import arg_or_kw
+    from gv.props.shared import unfolded
+
     idx = ctx.index
+    imports = idx.module(PKL).imports
     t, f = idx.func(PKL, "to_pickle"), idx.func(PKL, "from_pickle")
+
+    def from_pickle_module(e: ast.AST, name: str) -> bool:
+        """``e`` denotes ``pickle.<name>`` (``pickle.load``, ``load`` imported from pickle, under an alias or not)."""
+        if isinstance(e, ast.Name):
+            return imports.get(e.id) == f"pickle.{name}"
+        return isinstance(e, ast.Attribute) and e.attr == name and isinstance(e.value, ast.Name) and imports.get(e.value.id) == "pickle"
+
     for fn, mode, cls_, meth in ((t, "wb", "Pickler", "dump"), (f, "rb", "Unpickler", "load")):
         con = cname(PKL, None, fn.name)
-        opens = [c for c in walk_body(fn) if isinstance(c, ast.Call) and last_attr(c) == "open"]
+        opens = [c for c in walk_body(fn) if isinstance(c, ast.Call) and _open_mode(c) is not None]
         withs = [w for w in stmts_of(fn) if isinstance(w, ast.With)]
-        ok = len(opens) == 1 and opens[0].args and getattr(opens[0].args[0], "value", None) == mode and len(withs) == 1 and opens[0] in [i.context_expr for i in withs[0].items]
+        ok = len(opens) == 1 and getattr(_open_mode(opens[0])[0], "value", None) == mode and len(withs) == 1 and opens[0] in [i.context_expr for i in withs[0].items]
         ctx.ob("20.6-helpers", con, bool(ok), f"{fn.name} must open the file in mode '{mode}' inside a with statement", node=(opens or [fn])[0], stmt=f"file opened '{mode}' in a with statement")
-        calls = [c for c in walk_body(fn) if isinstance(c, ast.Call) and last_attr(c) == meth]
-        ctor = [c for c in walk_body(fn) if isinstance(c, ast.Call) and dotted(c.func) == cls_]
-        ok = len(calls) == 1 and len(ctor) == 1
+        stream = None
+        if ok:
+            item = next(i for i in withs[0].items if i.context_expr is opens[0])
+            stream = dotted(item.optional_vars) if item.optional_vars is not None else None
+        # the two spellings of the operation: <Pickler|Unpickler>(stream).<dump|load>(..) and pickle.<dump|load>(.., stream)
+        calls = [c for c in walk_body(fn) if isinstance(c, ast.Call) and isinstance(c.func, ast.Attribute) and c.func.attr == meth and not from_pickle_module(c.func, meth)]
+        ctor = [c for c in walk_body(fn) if isinstance(c, ast.Call) and from_pickle_module(c.func, cls_)]
+        direct = [c for c in walk_body(fn) if isinstance(c, ast.Call) and from_pickle_module(c.func, meth)]
+        the_call = None
+        if len(calls) == 1 and len(ctor) == 1 and not direct:
+            recv = unfolded(fn, calls[0].func.value) or []
+            ok = len(recv) == 1 and [norm_stmt(x) for x in unfolded(fn, ctor[0]) or []] == [norm_stmt(recv[0])] and stream is not None and dotted(arg_or_kw(ctor[0], 0, "file")) == stream
+            the_call, obj = calls[0], arg_or_kw(calls[0], 0, "obj")
+        elif len(direct) == 1 and not calls and not ctor:
+            pos = 1 if meth == "dump" else 0
+            ok = stream is not None and dotted(arg_or_kw(direct[0], pos, "file")) == stream
+            the_call, obj = direct[0], arg_or_kw(direct[0], 0, "obj")
+        else:
+            ok = False
         if ok and meth == "dump":
-            ok = dotted(calls[0].args[0]) == param_names(fn)[0]
+            ok = dotted(obj) == param_names(fn)[0]
         if ok and meth == "load":
-            rets = [s for s in stmts_of(fn) if isinstance(s, ast.Return)]
-            ok = len(rets) == 1 and calls[0] in list(ast.walk(rets[0]))
-        ctx.ob("20.6-helpers", con, bool(ok), f"{fn.name} must {meth} the object with pickle's {cls_}", node=(calls or [fn])[0], stmt=f"{cls_}.{meth}")
+            rets = [s for s in stmts_of(fn) if isinstance(s, ast.Return) and s.value is not None]
+            ok = len(rets) == 1
+            if ok:
+                alts = unfolded(fn, rets[0].value) or []
+                loaded = [norm_stmt(x) for x in unfolded(fn, the_call) or []]
+                ok = bool(alts) and len(loaded) == 1 and all(loaded[0] in norm_stmt(a) for a in alts)
+        ctx.ob("20.6-helpers", con, bool(ok), f"{fn.name} must {meth} the object with pickle's {cls_} (or pickle.{meth}) on the opened file", node=(calls or direct or [fn])[0], stmt=f"{cls_}.{meth}")
 
 
 def run(ctx: Ctx) -> None:
